@@ -15,7 +15,7 @@ class WRR(MultiQueueScheduler):
         weights: Dict[FlowId, int],
         debug: bool = False,
     ):
-        super().__init__(env, rate, debug)
+        super().__init__(env, rate, debug=debug)
         self.weights = weights
         self.proc = env.process(self.run(env))
 
